@@ -77,6 +77,12 @@ def _pool():
     P.append({'kind': 'scat1', 'biort': 'near_sym_b_bp', 'qshift': None, 'colour': True, 'bias': 1e-3})
     P.append({'kind': 'scat2', 'biort': 'near_sym_a', 'qshift': 'qshift_a', 'colour': False, 'bias': 1e-2})
     P.append({'kind': 'scat2', 'biort': 'near_sym_b_bp', 'qshift': 'qshift_b_bp', 'colour': True, 'bias': 1e-2})
+    # custom pywt.Wavelet objects that share one name and differ in their filter banks (twins: same length / other length)
+    P.append({'kind': 'dwt2_fwd', 'wave': 'db2', 'wave_form': 'object', 'fb_scale': [2.0, 0.5], 'mode': 'zero', 'J': 2})
+    P.append({'kind': 'dwt2_fwd', 'wave': 'sym2', 'wave_form': 'object', 'fb_scale': [0.5, -1.0], 'mode': 'zero', 'J': 2})
+    P.append({'kind': 'dwt1_inv', 'wave': 'db3', 'wave_form': 'object', 'fb_scale': [1.0, -1.0], 'mode': 'symmetric', 'J': 2})
+    P.append({'kind': 'dwt1_inv', 'wave': 'db2', 'wave_form': 'object', 'fb_scale': [3.0, 0.25], 'mode': 'symmetric', 'J': 2})
+    assert len(P) % 2 == 0
     return P
 
 
